@@ -1851,6 +1851,19 @@ class Interp:
                     return fnc(*args)
                 except (ValueError, TypeError) as ex:
                     raise Raised(ExcVal(type(ex).__name__)) from None
+        if d == "itertools.groupby" and args:
+            items = list(self.iterate(args[0]))
+            keyf = kwargs.get("key") if "key" in kwargs else (args[1] if len(args) > 1 else None)
+            out = []
+            for it_ in items:
+                k_ = self.call(keyf, [it_], {}) if keyf is not None else it_
+                if is_sym(k_):
+                    raise Unsupported("itertools.groupby with a symbolic key")
+                if out and out[-1][0] == k_:
+                    out[-1][1].append(it_)
+                else:
+                    out.append((k_, [it_]))
+            return out
         if d == "functools.partial" and args:
             f0, pre, prek = args[0], list(args[1:]), dict(kwargs)
             return PyFn(lambda I_, a, k: I_.call(f0, pre + list(a), {**prek, **k}), "partial")
@@ -1948,6 +1961,25 @@ class Interp:
                 return sym.var(f"match:{args[0]}", "obj") if self.choose(("regexmatch", d, args[0], args[1])) else None
             m = getattr(_re, d.split(".")[1])(*args, **kwargs)
             return m
+        if d in ("re.sub", "re.subn", "re.split", "re.findall") and not any(is_sym(a) for a in args) and not any(is_sym(v) for v in kwargs.values()):
+            if d in ("re.sub", "re.subn") and len(args) >= 3 and isinstance(args[1], (Closure, Bound, PyFn)):
+                pat, fn_, text = args[0], args[1], args[2]
+                rx = pat if isinstance(pat, _re.Pattern) else _re.compile(pat, kwargs.get("flags", 0) or (args[4] if len(args) > 4 else 0))
+                out, last, n_ = [], 0, 0
+                for m_ in rx.finditer(text):
+                    out.append(text[last:m_.start()])
+                    rep = self.call(fn_, [m_], {})
+                    if is_sym(rep):
+                        raise Unsupported("re.sub with a symbolic replacement")
+                    out.append(rep)
+                    last = m_.end()
+                    n_ += 1
+                out.append(text[last:])
+                return "".join(out) if d == "re.sub" else ("".join(out), n_)
+            try:
+                return getattr(_re, d.split(".")[1])(*args, **kwargs)
+            except (TypeError, ValueError, _re.error) as ex:
+                raise Raised(ExcVal(type(ex).__name__, args=(str(ex),))) from None
         if d == "re.escape":
             return _re.escape(*args)
         if d in ("re.I", "re.IGNORECASE"):
